@@ -571,6 +571,10 @@ func judgeVt(line, res string) {
 		out.Count("observation:" + cls[4:] + ":" + res)
 	case cls == "noop":
 		out.Count("noop-mutation:" + res)
+	case cls == "resigned:control":
+		if res != "accept" {
+			out.Violate(xvlib.Violation{Key: "signed-tx-rejected", What: "a correctly re-signed transaction is rejected by VerifyTx", Ops: []string{line}, Impl: []string{res}})
+		}
 	default:
 		if res == "accept" {
 			key := "mutant-accepted:" + cls
@@ -857,6 +861,42 @@ func schemaMutants(tx *pb.Transaction, form string) []txMutant {
 	if len(tx.AuthRequire) > 0 {
 		emit("signer:AuthRequire:other", func(t *pb.Transaction) { t.AuthRequire[0] = acct(6).Address })
 	}
+	// the signers sign the changed transaction again (valid signatures, txid recomputed): spending an output whose
+	// owner is not among them must still be rejected
+	resign := func(t *pb.Transaction) {
+		re := func(b []byte) []byte {
+			if isSym(b) && strings.HasSuffix(string(b), ".M") {
+				return []byte(strings.TrimSuffix(string(b), ".M") + ".N")
+			}
+			return b
+		}
+		for _, s := range t.InitiatorSigns {
+			s.Sign = re(s.Sign)
+		}
+		for _, s := range t.AuthRequireSigns {
+			s.Sign = re(s.Sign)
+		}
+		if t.XuperSign != nil {
+			t.XuperSign.Signature = re(t.XuperSign.Signature)
+		}
+	}
+	emit("resigned:owner-is-unsigned-address", func(t *pb.Transaction) { t.TxInputs[0].FromAddr = []byte(acct(6).Address); resign(t) })
+	emit("resigned:owner-is-foreign-account", func(t *pb.Transaction) { t.TxInputs[0].FromAddr = []byte(acctName(2)); resign(t) })
+	emit("resigned:owner-is-unknown-account", func(t *pb.Transaction) { t.TxInputs[0].FromAddr = []byte("XC7777777777777777@xuper"); resign(t) })
+	emit("resigned:owner-is-empty", func(t *pb.Transaction) { t.TxInputs[0].FromAddr = nil; resign(t) })
+	emit("resigned:input-added-of-unsigned-address", func(t *pb.Transaction) {
+		t.TxInputs = append(t.TxInputs, &protos.TxInput{RefTxid: sha("xv-victim"), FromAddr: []byte(acct(6).Address), Amount: []byte{9}})
+		resign(t)
+	})
+	if form == "multi" || form == "account" {
+		emit("resigned:signer-dropped", func(t *pb.Transaction) {
+			// the last listed signer (who owns an input) disappears together with its signature
+			t.AuthRequire = t.AuthRequire[:len(t.AuthRequire)-1]
+			t.AuthRequireSigns = t.AuthRequireSigns[:len(t.AuthRequireSigns)-1]
+			resign(t)
+		})
+	}
+	emit("resigned:control", func(t *pb.Transaction) { t.Desc = []byte("another valid transaction"); resign(t) })
 	emit("owner:TxInputs:other", func(t *pb.Transaction) { t.TxInputs[0].FromAddr = []byte(acct(6).Address) })
 	emit("owner:TxInputs:other-account", func(t *pb.Transaction) { t.TxInputs[0].FromAddr = []byte(acctName(2)) })
 	return res
@@ -931,6 +971,9 @@ func genC07(tier string, rng *xvlib.Rng, run func(string, bool)) {
 				ms := specOf(mu.tx)
 				printingMutant = false
 				for _, id := range []string{"B", "M"} {
+					if id == "B" && strings.HasPrefix(cls, "resigned:") {
+						continue
+					}
 					c := cls
 					if id == "B" && strings.HasPrefix(cls, "sigarea:") {
 						c = strings.TrimPrefix(cls, "sigarea:") // with the old id kept, the id check must fire
@@ -946,7 +989,7 @@ func genC07(tier string, rng *xvlib.Rng, run func(string, bool)) {
 		}
 	}
 	out.Stats.Exhaustive = false
-	out.Stats.Rule = fmt.Sprintf("d3/i3/d1: %d random transactions per encoder (all fields, empty/nil variants, versions 3,4,100 / 1,2), extracted schema bytes double-SHA-256 checked against MakeTxDigestHash and MakeTransactionID; vt: accepted transactions of 5 forms (address initiator, 2 extra signers, account-owned input via ACL, account initiator, aggregated XuperSign) × versions 3,2,1 × every single-field mutation reached by walking the %d leaf paths of the Transaction message (flip/truncate/append/clear, +1, toggle, map key), list grow/drop/dup/swap, signature by another key / with another public key / replayed from another transaction / swapped, signer and owner replaced — each once with the old txid kept and once with the txid recomputed — through the real State.VerifyTx; distinct by op line", nPre, len(schemas.TxFields))
+	out.Stats.Rule = fmt.Sprintf("d3/i3/d1: %d random transactions per encoder (all fields, empty/nil variants, versions 3,4,100 / 1,2), extracted schema bytes double-SHA-256 checked against MakeTxDigestHash and MakeTransactionID; vt: accepted transactions of 5 forms (address initiator, 2 extra signers, account-owned input via ACL, account initiator, aggregated XuperSign) × versions 3,2,1 × every single-field mutation reached by walking the %d leaf paths of the Transaction message (flip/truncate/append/clear, +1, toggle, map key), list grow/drop/dup/swap, signature by another key / with another public key / replayed from another transaction / swapped, signer and owner replaced — each once with the old txid kept and once with the txid recomputed —, plus re-signed variants (the signers sign again) whose spent output belongs to an address/account that did not sign — through the real State.VerifyTx; distinct by op line", nPre, len(schemas.TxFields))
 	out.Stats.Notes = append(out.Stats.Notes,
 		"covered entry point: State.VerifyTx (ImmediateVerifyTx: txid recomputation, verifySignatures/verifyXuperSign, verifyUTXOPermission) on a real State over a real ledger with an in-memory ACL table (account Cn is controlled by address An, threshold 1); contract requests / RWSet re-execution (C09) and Chain.SubmitTx / the block path (verifyDAGTxs) are not driven",
 		"observations (distribution keys observation:*): Blockid, ReceivedTimestamp and ModifyBlock.* are outside digest and id, so changing them is accepted",
